@@ -1,2 +1,153 @@
-/- Model driver for C03 (line protocol). Stub until the property's model lands. -/
-def main : IO Unit := pure ()
+/-
+  Model driver for C03 (line protocol, see harness/c03_main.c). Imports Model only.
+
+    raw      <kind> <lc> <lp> <pb> <dict> <extflags> <extsize> <preset> <outcap> <input>
+    rawbuf   <same fields>
+    rawmulti <kind> <lc> <lp> <pb> <dict> <extflags> <extsize> <preset> <outcap> <inslices> <outslices> <input>
+        kind: 1 = LZMA_FILTER_LZMA1, 2 = LZMA_FILTER_LZMA1EXT, 3 = LZMA_FILTER_LZMA2
+        answer: "<lzma_ret> <in_pos> <out_pos> <out hex>"; rawmulti answers "9" alone for LZMA_DATA_ERROR
+        (positions at a data error depend on the slicing) and maps the final LZMA_BUF_ERROR to 0.
+    dict <dictsize> <presethex> <ops…>   index-level dictionary model (LzDict.Dict), see `dictOps`
+-/
+import XzVerif.Model.Proto
+import XzVerif.Model.Lzma2
+open XzVerif XzVerif.Proto XzVerif.Lzma XzVerif.Lzma2 XzVerif.LzDict
+
+def hexNib (c : UInt8) : Option UInt8 :=
+  if 48 ≤ c ∧ c ≤ 57 then some (c - 48)
+  else if 97 ≤ c ∧ c ≤ 102 then some (c - 87)
+  else if 65 ≤ c ∧ c ≤ 70 then some (c - 55)
+  else none
+
+/-- fast hex parser into a ByteArray ("-" = empty) -/
+def hexBytes (s : String) : Option ByteArray :=
+  if s == "-" then some ByteArray.empty else
+  let u := s.toUTF8
+  if u.size % 2 != 0 then none else
+  let rec go (fuel i : Nat) (acc : ByteArray) : Option ByteArray :=
+    match fuel with
+    | 0 => some acc
+    | fuel + 1 =>
+      if i + 1 < u.size then
+        match hexNib (u.get! i), hexNib (u.get! (i + 1)) with
+        | some a, some b => go fuel (i + 2) (acc.push (a * 16 + b))
+        | _, _ => none
+      else some acc
+  go (u.size / 2 + 1) 0 (ByteArray.emptyWithCapacity (u.size / 2))
+
+def hexChar (n : UInt8) : Char := if n < 10 then Char.ofNat (48 + n.toNat) else Char.ofNat (87 + n.toNat)
+
+def bytesHex (b : ByteArray) : String :=
+  if b.size == 0 then "-" else
+  b.foldl (fun (s : String) (x : UInt8) => (s.push (hexChar (x / 16))).push (hexChar (x % 16))) ""
+
+def mkLast (kind lc lp pb dict extflags extsize : Nat) (preset : List UInt8) : Option LastFilter :=
+  let p : Props := { lc := lc, lp := lp, pb := pb }
+  match kind with
+  | 1 => some (.lzma1 p dict preset)
+  | 2 => some (.lzma1ext p dict preset extflags extsize)
+  | 3 => some (.lzma2 dict preset)
+  | _ => none
+
+def parseCommon (ws : List String) : Option (LastFilter × Nat) :=
+  match ws with
+  | [kind, lc, lp, pb, dict, extflags, extsize, preset, outcap] =>
+    match kind.toNat?, lc.toNat?, lp.toNat?, pb.toNat?, dict.toNat?, extflags.toNat?, extsize.toNat?, hexBytes preset, outcap.toNat? with
+    | some kind, some lc, some lp, some pb, some dict, some ef, some es, some pre, some oc =>
+      (mkLast kind lc lp pb dict ef es pre.toList).map fun l => (l, oc)
+    | _, _, _, _, _, _, _, _, _ => none
+  | _ => none
+
+/-- `rawDecode` without the detour through `List UInt8` for the bulk data -/
+def rawRun (last : LastFilter) (input : ByteArray) (outCap : Nat) : Ret × Nat × ByteArray :=
+  match last.init input with
+  | .error r => (r, 0, ByteArray.empty)
+  | .ok c =>
+    let (ret, c) := c.code outCap
+    (ret, c.consumed, c.outputBytes)
+
+def rawBufRun (last : LastFilter) (input : ByteArray) (outCap : Nat) : Ret × Nat × ByteArray :=
+  match last.init input with
+  | .error r => (r, 0, ByteArray.empty)
+  | .ok c =>
+    let (ret, c) := c.code outCap
+    if ret == .streamEnd then (.ok, c.consumed, c.outputBytes)
+    else if ret == .ok then
+      if c.consumed != input.size then (.bufError, 0, ByteArray.empty)
+      else if c.produced != outCap then (.dataError, 0, ByteArray.empty)
+      else
+        let before := c.produced
+        let (_, c') := c.code 1
+        if c'.produced == before + 1 then (.bufError, 0, ByteArray.empty) else (.dataError, 0, ByteArray.empty)
+    else (ret, 0, ByteArray.empty)
+
+def fmt (r : Ret × Nat × ByteArray) : String :=
+  s!"{r.1.toNat} {r.2.1} {r.2.2.size} {bytesHex r.2.2}"
+
+/-! index-level dictionary ops:  p<hex byte>  r<distance>,<len>  g<distance>  w (wrap if needed)  l<outavail> (set limit)
+    x (lz_decoder_reset)  W<hex> (dict_write, left = len)   → prints pos,full,hasWrapped + results of g / r / p-safe -/
+def dictOps (d : Dict) (ops : List String) (acc : String) : String :=
+  match ops with
+  | [] => acc ++ s!" {d.p.pos},{d.p.full},{if d.p.hasWrapped then 1 else 0}"
+  | op :: rest =>
+    let arg := (op.drop 1).toString
+    match op.front with
+    | 'p' =>
+      match hexBytes arg with
+      | some b => let (full, d') := d.putSafe (b.data.getD 0 0); dictOps d' rest (acc ++ (if full then " F" else " ."))
+      | none => "bad-op"
+    | 'g' =>
+      match arg.toNat? with
+      | some dist => dictOps d rest (acc ++ s!" {(d.get dist).toNat}")
+      | none => "bad-op"
+    | 'r' =>
+      match arg.splitOn "," with
+      | [a, b] =>
+        match a.toNat?, b.toNat? with
+        | some dist, some len => let (more, left, d') := d.repeat dist len; dictOps d' rest (acc ++ s!" {if more then 1 else 0}:{left}")
+        | _, _ => "bad-op"
+      | _ => "bad-op"
+    | 'w' => dictOps d.wrap rest acc
+    | 'l' =>
+      match arg.toNat? with
+      | some n => dictOps { d with p := d.p.setLimit n } rest acc
+      | none => "bad-op"
+    | 'x' => dictOps d.reset rest acc
+    | 'W' =>
+      match hexBytes arg with
+      | some b => let (n, d') := d.write b.toList b.size; dictOps d' rest (acc ++ s!" {n}")
+      | none => "bad-op"
+    | _ => "bad-op"
+
+def step (_ : Unit) (ws : List String) : Unit × String :=
+  match ws with
+  | "raw" :: rest =>
+    match parseCommon (rest.take 9), rest.drop 9 with
+    | some (l, oc), [inp] =>
+      match hexBytes inp with
+      | some i => ((), fmt (rawRun l i oc))
+      | none => ((), "bad-op")
+    | _, _ => ((), "bad-op")
+  | "rawbuf" :: rest =>
+    match parseCommon (rest.take 9), rest.drop 9 with
+    | some (l, oc), [inp] =>
+      match hexBytes inp with
+      | some i => ((), fmt (rawBufRun l i oc))
+      | none => ((), "bad-op")
+    | _, _ => ((), "bad-op")
+  | "rawmulti" :: rest =>
+    match parseCommon (rest.take 9), rest.drop 9 with
+    | some (l, oc), [_, _, inp] =>
+      match hexBytes inp with
+      | some i =>
+        let r := rawRun l i oc
+        ((), if r.1 == .dataError then "9" else fmt r)
+      | none => ((), "bad-op")
+    | _, _ => ((), "bad-op")
+  | "dict" :: ds :: preset :: ops =>
+    match ds.toNat?, hexBytes preset with
+    | some ds, some pre => ((), (dictOps (Dict.init ds pre.toList) ops "ok").trimAscii.toString)
+    | _, _ => ((), "bad-op")
+  | _ => ((), "bad-op")
+
+def main : IO Unit := runLoop step ()
